@@ -440,6 +440,17 @@ func c13Mentions(xs ...ast.Node) []string {
 	return out
 }
 
+// c13Names: c13Mentions without the string literals (a reason text such as admission.Allowed("") may change freely)
+func c13Names(xs ...ast.Node) []string {
+	var out []string
+	for _, m := range c13Mentions(xs...) {
+		if !strings.HasPrefix(m, "\"") && !strings.HasPrefix(m, "`") {
+			out = append(out, m)
+		}
+	}
+	return out
+}
+
 func c13RecvName(fd *ast.FuncDecl) string {
 	if fd.Recv != nil && len(fd.Recv.List) == 1 && len(fd.Recv.List[0].Names) == 1 {
 		return fd.Recv.List[0].Names[0].Name
@@ -561,7 +572,7 @@ func c13EntryFacts(e *ext) {
 					}
 					target := strings.Join(c13RecvCalls(cl, recv, 3), ",")
 					if target == "" {
-						target = strings.Join(c13Mentions(cl), ",")
+						target = strings.Join(c13Names(cl), ",")
 					}
 					for _, b := range cl.Body {
 						if as, ok := b.(*ast.AssignStmt); ok && len(as.Lhs) > 0 {
@@ -576,7 +587,7 @@ func c13EntryFacts(e *ext) {
 			if ifs, ok := st.(*ast.IfStmt); ok && flagVar != "" {
 				if un, ok := ifs.Cond.(*ast.UnaryExpr); ok && un.Op == token.NOT {
 					if id, ok := un.X.(*ast.Ident); ok && id.Name == flagVar && len(ifs.Body.List) == 1 {
-						if r, ok := ifs.Body.List[0].(*ast.ReturnStmt); ok && len(r.Results) == 1 && strings.Join(c13Mentions(r.Results[0]), ",") == "\"\",Allowed" {
+						if r, ok := ifs.Body.List[0].(*ast.ReturnStmt); ok && len(r.Results) == 1 && strings.Join(c13Names(r.Results[0]), ",") == "Allowed" {
 							noPatchGuard = true
 						}
 					}
@@ -667,6 +678,19 @@ func c13EntryFacts(e *ext) {
 	}
 	fmt.Fprintf(&e.out, "def colocationCreateOnly : Bool := %v\n", createOnly)
 	fmt.Fprintf(&e.out, "def colocationOrsResourceFlag : Bool := %v\n", orsResourceFlag)
+
+	// extendedResourceSpecMutatingPod: the guards in front of mutateByExtendedResources (each returns false, nil)
+	var extGuards []string
+	if fd := e.funcDecl(md, "PodMutatingHandler", "extendedResourceSpecMutatingPod"); fd == nil || fd.Body == nil {
+		e.fail("extendedResourceSpecMutatingPod not found")
+	} else {
+		for _, st := range fd.Body.List {
+			if ifs, ok := st.(*ast.IfStmt); ok {
+				extGuards = append(extGuards, strings.Join(c13Mentions(ifs.Cond), ","))
+			}
+		}
+	}
+	fmt.Fprintf(&e.out, "def extStepGuards : List String := %s\n", c13StrList(extGuards))
 
 	// validatingPodFn: the returns in front of the first validator, and the validators in order
 	var admits [][]string
